@@ -16,7 +16,7 @@ FILES = ["verif_indexer_test.go"]
 
 def classify(lines):
     c = {"gaps": 0, "repeats": 0, "restarts": 0, "double_restarts": 0, "evicting_notifies": 0, "restarts_after_gap": 0,
-         "tx_answers": 0}
+         "tx_answers": 0, "crashes": 0, "crashes_after_gap": 0}
     w = lines[0]["w"]
     last, prev_ev, gap_seen = -1, None, False
     for l in lines[1:]:
@@ -36,6 +36,10 @@ def classify(lines):
                 c["double_restarts"] += 1
             if gap_seen:
                 c["restarts_after_gap"] += 1
+        elif l["ev"] == "crash":
+            c["crashes"] += 1
+            if gap_seen:
+                c["crashes_after_gap"] += 1
         c["tx_answers"] += sum(len(x) for x in l.get("tx", []))
         prev_ev = l["ev"]
     return c
@@ -126,7 +130,8 @@ def binding_tv(ctx, scenarios, depth):
                 "one_line": {k: v for k, v in s0[min(8, len(s0) - 1)].items() if k != "tx"}})
     if ctx.only is None:
         for k in ("gaps_observed", "repeats_observed", "restarts_observed", "double_restarts_observed",
-                  "evicting_notifies_observed", "restarts_after_gap_observed", "tx_answers_observed"):
+                  "evicting_notifies_observed", "restarts_after_gap_observed", "tx_answers_observed",
+                  "crashes_observed", "crashes_after_gap_observed"):
             if ctx.cov.get(k, 0) == 0:
                 raise vlib.Infra("vacuity: no %s in %d scenarios" % (k, len(files)))
     if os.environ.get("VERIF_CORRUPT"):   # self-test of the binding: falsify one recorded answer
@@ -147,16 +152,20 @@ def run(ctx):
         sens = [("Indexer_MC_original.cfg", "stale_after_gap")]
         if not ctx.quick:
             sens.append(("Indexer_MC_original_restart.cfg", "second_restart"))
+        if not ctx.quick:
+            sens.append(("Indexer_MC_lazyflush.cfg", "lazy_flush_loses_acknowledged_blocks"))
         for cfg, inv in sens:
             r = vlib.tlc_mc(ctx, "Indexer_MC", cfg, label="orig-" + inv, expect_violation=True, workers=2)
             ctx.cov["design_step_detects_original_" + inv] = bool(r["violated"])
             if not r["violated"]:
                 raise vlib.Infra("sensitivity: the model of the indexer as originally coded no longer violates (%s)" % cfg)
-    fails = binding_tv(ctx, ctx.pick(50, 800), ctx.pick(30, 40))
+    fails = binding_tv(ctx, ctx.pick(30, 800), ctx.pick(30, 40))
     vlib.report_failures(ctx, fails, describe)
     ctx.cov["rule"] = ("tv: seeded histories of 30/40 calls on the real Indexer (pebble under .work): window 1-8, 0-2 txs per "
                        "block, Notify of the next height / a height 2..w+3 ahead (two thirds of the histories) / the latest "
-                       "block again, restarts (Close + NewIndexer, two in a row at the end of every history); after every "
+                       "block again, restarts (Close + NewIndexer, two in a row at the end of every history), up to 4 crash points "
+                       "per history right after an acknowledged Notify (an indexer opened on a copy of the live directory "
+                       "taken without Close must answer like the live one); after every "
                        "call GetBlockByHeight, GetBlock, GetTransaction for every generated height/id/tx, GetLatestBlock "
                        "and unknown ids are recorded; non-trivial = the history restarts and notifies beyond the window; "
                        "distinct = distinct (window, txs per block, call sequence)")
@@ -164,4 +173,6 @@ def run(ctx):
                         "one accepted block per height; transaction ids are unique across blocks",
                         "the window size is the same before and after a restart",
                         "height 0 is not delivered by the driver (the model covers it)",
-                        "pebble and the filesystem do not fail; a restart is a clean Close + NewIndexer, not a crash"]
+                        "pebble and the filesystem do not fail; crash points are between public calls (kill = copy of the live directory, "
+                        "all pebble commits are synchronous); a kill in the middle of Notify (cache updated, batch not yet written) "
+                        "is not exercised: that Notify was not acknowledged"]
